@@ -55,6 +55,9 @@ def check_full_iteration(ctx, rule: str, f: FuncInfo, suffix: str, what: str, al
                     break
             if inner is not loop:
                 continue
+            if isinstance(sk, ast.Break):
+                ctx.fail(rule, f, sk, f"{what}: the loop over `.{suffix}` is left with `break` (line {sk.lineno}): every element after the first match is never handled", construct=f"{f.name}: all of .{suffix}")
+                return loop
             outer_n = len(S.guards_of(loop, parents))
             g = [("" if pol else "not ") + ast.unparse(t) for t, pol in S.guards_of(sk, parents)[outer_n:]]
             if g and all(x in allowed for x in g):
